@@ -191,10 +191,49 @@ def gen_scenario(seed, profile="general"):
         events = []
         table = None
         t = 0.0
+    if profile == "latecancel":
+        # one batch whose reply is late; a send of that batch is cancelled while the request is in flight (that only
+        # detaches the caller: its siblings, also those sharing its partition, get their results).  Or: the same
+        # message sent twice (identical topic, key, messages), one copy cancelled before dispatch.
+        nb = rng.choice((1, 2))
+        brokers = list(range(1, nb + 1))
+        np_ = rng.choice((1, 1, 2, 3))
+        topics = {"t0": {p: brokers[p % nb] for p in range(np_)}}
+        nsend = rng.choice((3, 4, 5, 6))
+        dup = rng.random() < 0.45
+        cfg.update(batch_send=True, batch_every_n=nsend, batch_every_b=0,
+                   batch_every_t=rng.choice((None, None, 2.0)), partitioner=rng.choice(("hashed", "rr")),
+                   acks=rng.choice((1, -1)), max_req_attempts=3, retry_interval=0.25, discovery=False,
+                   timeout=3.0)
+        sends = [dict(s=i, t=0.0, topic="t0", key="k", msgs=["f%d" % i], cancel=None) for i in range(nsend)]
+        faults = [dict(api="Produce", nth=[0], broker=None, action=dict(kind="ok", delay=0.3))]
+        if dup:
+            # nsend + 1 sends, one of the two copies withdrawn at once; the last two arrive a moment later and
+            # complete the batch (count threshold = nsend messages)
+            j = rng.randrange(nsend - 2)
+            copy = dict(sends[j], s=50, dup_of=j)
+            # the later copy is withdrawn (mostly), or the earlier one, before the batch is taken
+            which = copy if rng.random() < 0.7 else sends[j]
+            which["cancel"] = rng.choice((0.0, 0.001, 0.01))
+            sends.insert(j + 1, copy)
+            sends[-1]["t"] = 0.05
+            sends[-2]["t"] = 0.05
+            if rng.random() < 0.3:
+                faults = []
+        else:
+            for v in rng.sample(range(nsend - 1), rng.choice((1, 1, 2)) if nsend > 2 else 1):
+                sends[v]["cancel"] = rng.choice((0.05, 0.1, 0.29))
+        # a second wave once the first has resolved
+        for i in range(rng.choice((0, nsend, nsend + 1))):
+            sends.append(dict(s=100 + i, t=1.0, topic="t0", key="k", msgs=["f%d" % i], cancel=None))
+        stop = None
+        events = []
+        table = None
+        t = 1.0
     return dict(seed=seed, profile=profile, brokers=brokers, topics=topics, cfg=cfg, sends=sends, stop=stop,
                 faults=faults, events=events, version_table=table,
-                latency=0.0 if profile in ("timing", "batch") else rng.choice((0.0, 0.002, 0.03)),
-                warm=profile in ("timing", "batch", "mixed", "down") or rng.random() < 0.5)
+                latency=0.0 if profile in ("timing", "batch", "latecancel") else rng.choice((0.0, 0.002, 0.03)),
+                warm=profile in ("timing", "batch", "mixed", "down", "latecancel") or rng.random() < 0.5)
 
 
 def payload_value(s, j, spec):
@@ -271,8 +310,9 @@ def run_scenario(sc):
             if tr.stop_called is not None:
                 return  # sends after stop() are outside the statements checked here
             s = sd["s"]
-            key = send_key(s, sd["key"])
-            msgs = [payload_value(s, j, m) for j, m in enumerate(sd["msgs"])]
+            src = sd.get("dup_of", s)  # a send repeating another one word for word
+            key = send_key(src, sd["key"])
+            msgs = [payload_value(src, j, m) for j, m in enumerate(sd["msgs"])]
             if any(m == "BAD" for m in sd["msgs"]):
                 # a send the producer must reject (a message that is not bytes, after some that are): it is not
                 # queued and must leave no trace in the batching accounts
